@@ -176,7 +176,6 @@ func (p *poller) acceptorLoop() {
 		defer runtime.UnlockOSThread()
 	}
 
-	p.shutdown = false
 	for !p.shutdown {
 		conn, err := p.listener.Accept()
 		if err == nil {
@@ -237,7 +236,6 @@ func (p *poller) readWriteLoop() {
 	}
 
 	g := p.g
-	p.shutdown = false
 	isOneshot := g.isOneshot
 	asyncReadEnabled := g.AsyncReadInPoller && (g.EpollMod == EPOLLET)
 	for !p.shutdown {
